@@ -196,7 +196,7 @@ CLAIMED["C18"] = dict(
     "The round trip over the documented grammar is a theorem too (Proofs/ParserRoundTrip.v, ParserBraces.v): the printed form of an abstract specification -- optional name=, one restriction "
     "marker, a core of segments text / text{n}, search parameters in any documented spelling with flag, integer or decimal values -- is parsed into exactly the parts it was printed from "
     "(C18_round_trip, C18_round_trip_braces, C18_parameters_round_trip, C18_brace_expansion); without '...' it builds the single adapter of those parts, A...B the linked adapter of the two "
-    "(C18_adapter_from_printed, C18_linked_notation); file:, ^file:, file$: turn every record into a specification with that anchor under the file-level parameters (C18_file*); blanks around name, sequence, fields, keys and values change nothing (C18_round_trip_blanks, C18_parameters_blanks); the option letter x marker table read off the printed string (C18_printed_table). "
+    "(C18_adapter_from_printed, C18_linked_notation, C18_linked_meaning); file:, ^file:, file$: turn every record into a specification with that anchor under the file-level parameters (C18_file*); blanks around name, sequence, fields, keys and values change nothing (C18_round_trip_blanks, C18_parameters_blanks); the option letter x marker table read off the printed string (C18_printed_table). "
     "PARTIAL: numerals other than digits / digits.digits, the text of error messages and the exit status are not covered by theorems; they are covered by the "
     "correspondence of the extracted parser model with make_adapters_from_specifications on strings printed from random ASTs of the documented grammar plus the documented-invalid strings "
     "(CLI exit status 2), and by a documentation-table oracle applied to the AST.",
